@@ -48,21 +48,32 @@ pub fn thread_cpu<T>(f: impl FnOnce() -> T) -> (T, f64) {
     let r = f();
     (r, now() - t0)
 }
-/// Growth check: best-of-three CPU time of `f` on an input of size n and on one four times as
-/// large. Linear work gives a ratio near 4, quadratic work 16; more than 8 (plus 20 ms of slack) fails.
-pub fn quadruples_badly(mut f: impl FnMut(bool) -> bool) -> Result<(f64, f64), String> {
-    let mut best = [f64::MAX, f64::MAX];
-    for _ in 0..3 {
-        for (k, big) in [false, true].iter().enumerate() {
-            let (ok, t) = thread_cpu(|| f(*big));
-            if !ok {
-                return Err("scaling input rejected".into());
+/// Growth check: CPU time of `f` on an input of size n (best of five) and on one SIXTEEN times as large (best
+/// of three). Linear work gives a ratio near 16 (up to about 30 when the large input falls out of the caches
+/// on a loaded machine), quadratic work 256; more than 64 (plus 50 ms of slack) is suspicious. A suspicious
+/// measurement is repeated from scratch, up to three times in all: only if every attempt is over the limit
+/// is the growth reported (CPU time per thread is insensitive to scheduling, but not to cache and memory
+/// contention from other processes; a defect in the code is there every time).
+pub fn grows_badly(mut f: impl FnMut(bool) -> bool) -> Result<(f64, f64), String> {
+    let mut last = (0.0, 0.0);
+    for _attempt in 0..3 {
+        let mut best = [f64::MAX, f64::MAX];
+        for round in 0..5 {
+            for (k, big) in [false, true].iter().enumerate() {
+                if *big && round >= 3 {
+                    continue;
+                }
+                let (ok, t) = thread_cpu(|| f(*big));
+                if !ok {
+                    return Err("scaling input rejected".into());
+                }
+                best[k] = best[k].min(t);
             }
-            best[k] = best[k].min(t);
+        }
+        last = (best[0], best[1]);
+        if best[1] <= 64.0 * best[0] + 0.050 {
+            return Ok(last);
         }
     }
-    if best[1] > 8.0 * best[0] + 0.020 {
-        return Err(format!("{:.1} ms of CPU time for the input, {:.1} ms for one four times as long", best[0] * 1e3, best[1] * 1e3));
-    }
-    Ok((best[0], best[1]))
+    Err(format!("{:.1} ms of CPU time for the input, {:.1} ms for one sixteen times as long (three measurements, each over 64-fold)", last.0 * 1e3, last.1 * 1e3))
 }
